@@ -15,6 +15,7 @@ import (
 	"strconv"
 	"strings"
 	"sync"
+	"sync/atomic"
 	"syscall"
 	"time"
 )
@@ -161,12 +162,25 @@ func workerMain(args []string) int {
 	// that the driver can retry it alone; it never decides anything by itself.
 	var mu sync.Mutex
 	curCase, curStart := -1, time.Now()
+	stallCase, stallProgress, stallCPU := -1, int64(0), time.Duration(0)
 	go func() {
 		for {
 			time.Sleep(500 * time.Millisecond)
 			mu.Lock()
 			cc, st := curCase, curStart
 			mu.Unlock()
+			if cc >= 0 && chk.StallCPU > 0 {
+				pc, cpu := atomic.LoadInt64(&progressCounter), processCPU()
+				if cc != stallCase || pc != stallProgress {
+					stallCase, stallProgress, stallCPU = cc, pc, cpu
+				} else if cpu-stallCPU > chk.StallCPU {
+					if jf != nil {
+						fmt.Fprintf(jf, "STALL %d\n", cc)
+					}
+					fmt.Fprintf(os.Stderr, "worker: case %d burnt %v of CPU time without reaching a monitor point\n", cc, cpu-stallCPU)
+					os.Exit(4)
+				}
+			}
 			if cc >= 0 && time.Since(st) > *caseTimeout {
 				if jf != nil {
 					fmt.Fprintf(jf, "TIMEOUT %d\n", cc)
@@ -231,6 +245,7 @@ type shardState struct {
 
 type crash struct {
 	caseNo  int
+	stall   bool // confirmed alone: CPU burnt without reaching a monitor point (Check.StallCPU)
 	timeout bool
 	stderr  string
 	input   string
@@ -328,6 +343,10 @@ func driverMain(args []string) int {
 	}
 	// crashes and hangs: each was already retried alone by runShard
 	for _, cr := range crashes {
+		if cr.stall {
+			total.Violations = append(total.Violations, Violation{Property: id, Key: "uninterruptible", Desc: fmt.Sprintf("the case burnt more than %v of CPU time without reaching a single monitor point (yield or evaluation step), also when run alone: %s", chk.StallCPU, firstLines(cr.stderr, 2)), Input: cr.input, Seed: seed, Tier: *tier, Case: cr.caseNo})
+			continue
+		}
 		if cr.timeout {
 			total.Inconclusive = append(total.Inconclusive, fmt.Sprintf("case %d: watchdog fired twice (alone too); not judged", cr.caseNo))
 			total.Counters["inconclusive"]++
@@ -515,7 +534,7 @@ func runShard(self string, chk *Check, st *shardState, tier string, seed int64, 
 			st.res.Inconclusive = append(st.res.Inconclusive, fmt.Sprintf("case %d: worker died (timeout=%v) in a batch but the case passed alone; batch stderr: %s", last, isTimeout, firstLines(string(eb), 3)))
 			st.res.Counters["inconclusive"]++
 		} else {
-			st.crashes = append(st.crashes, crash{caseNo: last, timeout: isTimeout && (errors.Is(aerr, errTimeout) || exitCode(aerr) == 3), stderr: ab.String(), input: ReadJournal(wtmp)})
+			st.crashes = append(st.crashes, crash{caseNo: last, timeout: isTimeout && (errors.Is(aerr, errTimeout) || exitCode(aerr) == 3 || exitCode(aerr) == 4), stall: exitCode(aerr) == 4, stderr: ab.String(), input: ReadJournal(wtmp)})
 		}
 		st.skip = append(st.skip, last)
 	}
@@ -562,6 +581,12 @@ func lastJournal(path string) (int, bool) {
 	sc := bufio.NewScanner(f)
 	for sc.Scan() {
 		line := sc.Text()
+		if strings.HasPrefix(line, "STALL ") {
+			if n, err := strconv.Atoi(line[6:]); err == nil {
+				last, timeout = n, true
+			}
+			continue
+		}
 		if strings.HasPrefix(line, "TIMEOUT ") {
 			if n, err := strconv.Atoi(line[8:]); err == nil {
 				last, timeout = n, true
@@ -683,4 +708,13 @@ func replayMain(args []string) int {
 	}
 	fmt.Println("no violation reproduced")
 	return 0
+}
+
+// processCPU is the CPU time (user + system) this process has consumed.
+func processCPU() time.Duration {
+	var ru syscall.Rusage
+	if err := syscall.Getrusage(syscall.RUSAGE_SELF, &ru); err != nil {
+		return 0
+	}
+	return time.Duration(ru.Utime.Nano() + ru.Stime.Nano())
 }
